@@ -286,7 +286,15 @@ func zz10StoreEquals(st *zz10Store, want []zz10Entry) {
 }
 
 // Read, prefix scan, then CommitTo.
-func ZZ_C10_OverlayReadScanCommit() {
+func ZZ_C10_OverlayReadScanCommit() { zz10ReadScanCommit() }
+
+// same body, longer block-layer history over a smaller store
+func ZZ_C10_OverlayDeepHistory() { zz10ReadScanCommit() }
+
+// same body, keys of varying length (a key may be a proper prefix of another)
+func ZZ_C10_OverlayVarLen() { zz10ReadScanCommit() }
+
+func zz10ReadScanCommit() {
 	st, ov, base, blk := zz10Setup()
 	layers := []*zz10Layer{blk, base}
 	q := zz10Key("q")
